@@ -47,7 +47,10 @@ def statefulOps : List (String × (DrvState → Json → J (DrvState × Json))) 
   ("compile", opCompile) ::
   ("dec-data-compiled", opDecDataCompiled) ::
   ("enc-data-compiled", opEncDataCompiled) ::
-  ("cache", opCache) ::
+  ("compiled-cache", opCompiledCache) ::
+  ("tabledef-extract", TD.opTableDefExtract) ::
+  ("fix-ncep", TD.opFixNcep) ::
+  ("build-src", TD.opBuildSrc) ::
   []
 
 def dispatch (st : DrvState) (j : Json) : J (DrvState × Json) := do
